@@ -18,8 +18,8 @@ EXTENDS Events, Json, MC_EventsParams
 (* MC_EventsParams (generated): Programs, CheckProps, MaxDepth *)
 
 Sum(f, S) == LET RECURSIVE Go(_) Go(T) == IF T = {} THEN 0 ELSE LET x == CHOOSE y \in T : TRUE IN f[x] + Go(T \ {x}) IN Go(S)
-SkipsUsed   == Sum([s \in Stages |-> done.all[<<s, "SKIPPED">>]], Stages)
-CancelsUsed == Sum([s \in Stages |-> done.all[<<s, "CANCELED">>]], Stages)
+SkipsUsed   == Sum([s \in Stages |-> Cnt(done.all, <<s, "SKIPPED">>)], Stages)
+CancelsUsed == Sum([s \in Stages |-> Cnt(done.all, <<s, "CANCELED">>)], Stages)
 
 MCInit == \E p \in Programs : InitWith(p)
 
@@ -86,6 +86,12 @@ SP(n) ==
 Failed == {n \in CheckProps : ~SP(n)}
 StateJson == ToJson([prog |-> prog.name, status |-> status, ev |-> ev, bus |-> bus, cur |-> cur, tx |-> tx,
                      pend |-> pend, wr |-> wr, cnt |-> cnt, act |-> act])
-NoViolation == Failed = {} \/ ((\A n \in Failed : PrintT(<<"VIOL", n, act.n, StateJson>>)) /\ FALSE)
+(* every failure prints a short line (counted by the harness); the full state only once per formula,
+   action and TLC worker (register 4 is per worker) *)
+ASSUME TLCSet(4, {})
+Report(n) == /\ PrintT(<<"V", n, act.n>>)
+             /\ IF <<n, act.n>> \in TLCGet(4) THEN TRUE
+                ELSE TLCSet(4, TLCGet(4) \cup {<<n, act.n>>}) /\ PrintT(<<"VIOL", n, act.n, StateJson>>)
+NoViolation == Failed = {} \/ ((\A n \in Failed : Report(n)) /\ FALSE)
 DepthBound == TLCGet("level") <= MaxDepth
 =============================================================================
